@@ -196,3 +196,54 @@ func H_C01_forms() {
 	doc := vrtDoc("d", c01Depth(expr), uJSON, uJSON)
 	diffSearch(expr, doc, c01Unordered(expr))
 }
+
+// H_C01_index: index selectors with an arbitrary (symbolic) 64-bit index
+// literal in the positions the parser treats separately: without a left-hand
+// side, behind a field, behind the current node, behind a pipe and as a
+// projection's right-hand side.
+func H_C01_index() {
+	i := vrtInt("i")
+	n := vrtChoose("n", 3)
+	arr := make([]any, n)
+	for j := range arr {
+		arr[j] = int64(j + 10)
+	}
+	var elem any
+	if i >= 0 && i < n {
+		elem = arr[i]
+	} else if i < 0 && i >= -n {
+		elem = arr[i+n]
+	}
+	var expr string
+	var doc, want any
+	switch vrtChoose("form", 6) {
+	case 0:
+		expr, doc, want = vrtMagic("[%d]", i), arr, elem
+	case 1:
+		expr, doc, want = vrtMagic("a[%d]", i), map[string]any{"a": arr}, elem
+	case 2:
+		expr, doc = vrtMagic("[*][%d]", i), []any{arr, nil, arr}
+		if elem != nil {
+			want = []any{elem, elem}
+		} else {
+			want = []any{}
+		}
+	case 3:
+		expr, doc, want = vrtMagic("@[%d]", i), arr, elem
+	case 4:
+		expr, doc, want = vrtMagic("a | [%d]", i), map[string]any{"a": arr}, elem
+	case 5:
+		expr, doc = vrtMagic("*[%d]", i), map[string]any{"k": arr}
+		if elem != nil {
+			want = []any{elem}
+		} else {
+			want = []any{}
+		}
+	}
+	vrtNote("template:" + expr)
+	got, err := Search(expr, doc)
+	vrtAssert(err == nil, "index expression evaluates")
+	if err == nil {
+		vrtAssert(refEqual(got, want), "index selects the element the specification names (null when out of range)")
+	}
+}
